@@ -64,6 +64,17 @@ def cases(tier, rng):
             yield Case(f"path.eq {hexs(b'./' + a)} {hexs(a)}", expect="1", tag="patheq-dotslash")
         for c in ("path.filename", "path.ext", "path.dir", "path.hasroot"):
             yield Case(f"{c} {hexs(a)}", tag="path-unary")
+    # every letter of the alphabet in both cases (an ASCII fold with an off-by-one at either end of a range shows on one letter only)
+    for c in range(97, 123):
+        lo = bytes([c]); up = bytes([c - 32])
+        for a, b in ((lo, up), (b"d" + lo + b"/" + lo + up + b"." + lo, b"D" + up + b"/" + up + lo + b"." + up), (b"./" + lo, up)):
+            yield Case(f"path.eq {hexs(a)} {hexs(b)}", expect="1", tag="patheq-every-letter")
+            yield Case(f"path.eq {hexs(b)} {hexs(a)}", expect="1", tag="patheq-every-letter")
+        yield Case(f"str.eq {hexs(lo + b'1' + up)} {hexs(up + b'1' + lo)}", expect="1", tag="eq-every-letter")
+        yield Case(f"str.lt {hexs(lo)} {hexs(up)}", expect="0", tag="lt-every-letter")
+        yield Case(f"str.lt {hexs(up)} {hexs(lo)}", expect="0", tag="lt-every-letter")
+        yield Case(f"path.chextmatch {hexs(b'file.txt')} {hexs(b'b' + lo + b'2')} {hexs(b'B' + up + b'2')}", expect="1", tag="ext-every-letter")
+        yield Case(f"path.chextmatch {hexs(b'file')} {hexs(b'.' + up)} {hexs(lo)}", expect="1", tag="ext-every-letter")
     # join / split / extension laws as direct oracles on the implementation
     plain = [s for s in strings(3, [b"a", b"B", b"1", b"_", b"."]) if s and s not in (b".", b"..")]
     reldirs = [d for d in strings(3, [b"a", b"B", b".", b"/"]) if not d.startswith(b"/")]
